@@ -27,6 +27,7 @@ class Decl:
     file: str
     fields: List[Tuple[Optional[str], str]] = field(default_factory=list)  # struct
     variants: List[Variant] = field(default_factory=list)  # enum
+    generics: List[str] = field(default_factory=list)
 
     def variant(self, name: str) -> Variant:
         for v in self.variants:
@@ -131,8 +132,14 @@ def scan_text(src: str, file: str) -> List[Decl]:
         # skip generics
         while i < len(s) and s[i].isspace():
             i += 1
+        gens = []
         if i < len(s) and s[i] == "<":
-            i = _match(s, i) + 1
+            e = _match(s, i)
+            for g in _split(s[i + 1:e]):
+                g = g.split(":")[0].strip()
+                if g and not g.startswith("'"):
+                    gens.append(g.replace("const ", "").strip())
+            i = e + 1
         # skip where clause up to { ( ;
         while i < len(s) and s[i] not in "{(;":
             i += 1
@@ -141,10 +148,10 @@ def scan_text(src: str, file: str) -> List[Decl]:
         if kind == "struct":
             if s[i] == "{":
                 body = s[i + 1 : _match(s, i)]
-                decls.append(Decl(name, "struct", file, fields=_fields_struct(body)))
+                decls.append(Decl(name, "struct", file, fields=_fields_struct(body), generics=gens))
             elif s[i] == "(":
                 body = s[i + 1 : _match(s, i)]
-                decls.append(Decl(name, "struct", file, fields=_fields_tuple(body)))
+                decls.append(Decl(name, "struct", file, fields=_fields_tuple(body), generics=gens))
             else:
                 decls.append(Decl(name, "struct", file, fields=[]))
         else:
@@ -178,7 +185,7 @@ def scan_text(src: str, file: str) -> List[Decl]:
                         pass
                 variants.append(Variant(vn, disc, vf, vk))
                 nxt = disc + 1
-            decls.append(Decl(name, "enum", file, variants=variants))
+            decls.append(Decl(name, "enum", file, variants=variants, generics=gens))
     return decls
 
 
